@@ -218,6 +218,7 @@ def _hypernym_wrong_pos(lex: lmf.Lexicon, ids: _Ids) -> _Result:
     return {ss['id']: {'type': r['relType'], 'target': r['target']}
             for ss, r in _synset_relations(lex)
             if r['relType'] == 'hypernym'
+            and r['target'] in sspos  # missing targets are reported by E401
             and ss.get('partOfSpeech') != sspos[r['target']]}
 
 
